@@ -657,6 +657,10 @@ def install(lib):
             return Arr(z3.K(INT, z3.RealVal(0)), shape[0])
         raise Unsupported("zeros(shape)")
 
+    def np_issubdtype(ex, d, kind):
+        used(ex, "dtype predicates (issubdtype) are unknown booleans: both outcomes are explored (floats are reals, dtypes are opaque tags)")
+        return ex.fresh("issubdtype", BOOL)
+
     def np_all(ex, x, axis=None, **k):
         if isinstance(x, Arr):
             jv = z3.Int(f"j!all{next(ex.fresh_n)}")
@@ -683,7 +687,7 @@ def install(lib):
             return z3.Function("vector_min", Leaf, Leaf)(x)
         return x
 
-    common = dict(all=np_all, any=np_any, flip=np_flip, searchsorted=np_searchsorted, max=np_amax, min=np_amin, amax=np_amax, amin=np_amin, zeros=np_zeros, interp=np_interp, argwhere=np_argwhere, ones=np_ones, arange=np_arange, array=np_array, asarray=np_asarray, where=np_where, clip=np_clip, roll=np_roll, take=np_take, maximum=np_maximum, minimum=np_minimum,
+    common = dict(issubdtype=np_issubdtype, floating=TypeTag("floating"), integer=TypeTag("integer"), all=np_all, any=np_any, flip=np_flip, searchsorted=np_searchsorted, max=np_amax, min=np_amin, amax=np_amax, amin=np_amin, zeros=np_zeros, interp=np_interp, argwhere=np_argwhere, ones=np_ones, arange=np_arange, array=np_array, asarray=np_asarray, where=np_where, clip=np_clip, roll=np_roll, take=np_take, maximum=np_maximum, minimum=np_minimum,
                   isnan=np_isnan, ceil=np_ceil, floor=np_floor, sqrt=np_sqrt, zeros_like=np_zeros_like, ones_like=np_ones_like,
                   logical_and=np_logical("and"), logical_or=np_logical("or"), logical_not=np_logical_not, exp=np_exp, log=np_log, tanh=np_tanh,
                   arctanh=np_arctanh, abs=b_abs, square=lambda ex, x: ex.binop(ast.Mult(), x, x),
